@@ -4,7 +4,6 @@ import (
 	"bytes"
 	"context"
 	"fmt"
-	"math"
 	"os"
 	"os/exec"
 	"runtime"
@@ -18,12 +17,12 @@ import (
 )
 
 // Area `probe`: situations OUTSIDE the domain of the property (it speaks of tasks that return or panic, of submitters
-// that are not tasks of the same queue, of depths a machine can allocate).  They are transcribed, not judged: each line
+// that are not tasks of the same queue).  They are transcribed, not judged: each line
 // runs in a child process with deadlines and answers `obs …` with what the code did; the check stores the answers in the
 // evidence (coverage.observations).
 type probeArea struct{}
 
-var probeNames = []string{"goexit", "reentrant-unbounded", "reentrant-bounded", "reentrant-depth0", "depth-maxint"}
+var probeNames = []string{"goexit", "reentrant-unbounded", "reentrant-bounded", "reentrant-depth0"}
 
 func (probeArea) Gen(_ *hx.Rng, n int, _ string, emit func(string)) {
 	for i := 0; i < n; i++ {
@@ -120,12 +119,6 @@ func probeChild(name string) {
 		}
 		fmt.Printf("1 worker, depth %d, in-capacity 1, 4 submitters, %d tasks each submitting one more: all Submit calls returned within the deadline (1s, unbounded 5s): %v, %d of %d tasks ran, Shutdown returned: %v\n",
 			depth, outer, ok, ran.Load(), 2*outer, returned)
-	case "depth-maxint":
-		var ran atomic.Int32
-		q := taskqueue.New(taskqueue.Workers(1), taskqueue.Depth(math.MaxInt))
-		q.Submit(func() { ran.Add(1) })
-		returned := waitOr(time.Second, q.Shutdown)
-		fmt.Printf("Depth(math.MaxInt): %d task ran, Shutdown returned: %v\n", ran.Load(), returned)
 	default:
 		fmt.Println("unknown probe")
 	}
